@@ -55,6 +55,9 @@ func tileIDsHex(c *api.Context, feature b6.Feature) (b6.Collection[b6.FeatureID,
 
 // Return the URL paths for the tiles containing the given geometry at the given zoom level.
 func tilePaths(c *api.Context, geometry b6.Geometry, zoom int) (b6.Collection[int, string], error) {
+	if err := requireGeometry("tile-paths", geometry); err != nil {
+		return b6.Collection[int, string]{}, err
+	}
 	coverer := s2.RegionCoverer{MaxLevel: 20, MinLevel: 0}
 	paths := make([]string, 0)
 	for _, t := range b6.CoverCellUnionWithTiles(b6.Covering(geometry, coverer), uint(zoom)) {
